@@ -593,7 +593,16 @@ func (e *Engine) paramAV(st *State, p *ssa.Parameter) AV {
 	// method on a named map type called only on that variable) is that map
 	for g, al := range regAliasMemo {
 		if al[p] {
+			if fi, wrapped := regFieldMemo[g]; wrapped {
+				fn := g.Type().(*types.Pointer).Elem().Underlying().(*types.Struct).Field(fi).Name()
+				return e.load(st, locJoin(ensureSel("G:"+globalName(g)), "."+fn), p.Type())
+			}
 			return e.load(st, "G:"+globalName(g), p.Type())
+		}
+	}
+	for g, al := range regPtrAliasMemo {
+		if al[p] {
+			return AV{Kind: KAddr, Loc: "G:" + globalName(g)}
 		}
 	}
 	return e.typed(st, p.Name(), p.Type())
@@ -1794,7 +1803,34 @@ func (e *Engine) opaqueCall(st *State, x *ssa.Call, name string, callee *ssa.Fun
 			ev.Unmodelled = true
 		}
 		if writes {
-			for _, a := range full {
+			// per argument: the callee(s) may change the argument's immediate
+			// pointee only if some summary says so (a callee that writes through
+			// a pointer it loads from the struct leaves the struct's fields alone)
+			var shallow []bool
+			if known && e.Effects != nil {
+				cs := e.w.Callees(x)
+				if callee != nil {
+					cs = []*ssa.Function{callee}
+				}
+				oracle := e.w.ShallowWritesOracle()
+				for ci, f := range cs {
+					sw := oracle(f)
+					if sw == nil || len(sw) < len(full) {
+						shallow = nil
+						break
+					}
+					if ci == 0 {
+						shallow = make([]bool, len(full))
+					}
+					for i := range full {
+						shallow[i] = shallow[i] || sw[i]
+					}
+				}
+			}
+			for i, a := range full {
+				if shallow != nil && !shallow[i] {
+					continue
+				}
 				e.havocPointee(st, a, shortName(name))
 			}
 			if inRepoTarget || known {
